@@ -8,6 +8,7 @@ package main
 
 import (
 	"fmt"
+	"strings"
 	"sync"
 	"sync/atomic"
 	"time"
@@ -83,6 +84,15 @@ func main() {
 	gateFD = ioFDs[0]
 	one := []byte{1, 0, 0, 0, 0, 0, 0, 0}
 	ioBatches := int64(0)
+	overflowRaces := int64(0)
+	// the yield point in front of the low-priority Enqueue of Trigger (looked up by statement text in this variant's file)
+	lowEnqueuePoint := 0
+	for i, d := range vsys.PointTable {
+		if strings.Contains(d, pollerFile) && strings.Contains(d, "stmt p.asyncTaskQueue.Enqueue(task)") {
+			lowEnqueuePoint = i + 1
+			break
+		}
+	}
 	pollDone := make(chan error, 1)
 	var loopGid atomic.Int64
 	go func() {
@@ -148,6 +158,45 @@ func main() {
 				_, _ = unix.Write(ioFDs[j], one)
 			}
 			ioBatches++
+		}
+		// every 64th iteration: the race in the low-priority overflow path of Trigger. A task on the loop fills the
+		// urgent queue beyond the threshold and holds the loop; an outside producer issues ONE low-priority request, passes
+		// the length test and is paused right before its Enqueue; the loop is released, drains everything and blocks; then
+		// the producer goes on. Its request must still wake the loop.
+		overflowRace := false
+		if !burst && ioM == 0 && it%256 == 33 && lowEnqueuePoint > 0 {
+			overflowRace = true
+			K, per = 0, 0
+			gate, filled := make(chan struct{}), make(chan struct{})
+			vsys.Enabled.Store(false) // no perturbation while the backlog is built (13000 point hits otherwise)
+			_ = p.Trigger(queue.HighPriority, func(any) error {
+				for j := 0; j < 1100; j++ {
+					_ = p.Trigger(queue.HighPriority, func(any) error { executed.Add(1); return nil }, nil)
+				}
+				close(filled)
+				<-gate
+				executed.Add(1)
+				return nil
+			}, nil)
+			<-filled
+			vsys.ClearFocus()
+			vsys.AddFocus(lowEnqueuePoint, 1, 150000000)
+			vsys.Enabled.Store(true)
+			lowDone := make(chan struct{})
+			go func() {
+				_ = p.Trigger(queue.LowPriority, func(any) error { executed.Add(1); return nil }, nil)
+				close(lowDone)
+			}()
+			time.Sleep(1500 * time.Microsecond) // the producer is inside its pause now (it saw >= 1024 urgent requests)
+			e0, t0 := executed.Load(), time.Now()
+			close(gate)
+			for executed.Load() < e0+1101 && time.Since(t0) < 2*time.Second {
+				time.Sleep(50 * time.Microsecond)
+			}
+			res.ObsMax("max:us_to_drain_the_backlog_in_overflow_race", time.Since(t0).Microseconds())
+			<-lowDone
+			submitted += 1102
+			overflowRaces++
 		}
 		recs := make([][]*taskRec, K)
 		var wg sync.WaitGroup
@@ -223,6 +272,9 @@ func main() {
 		}
 		n := int64(K*per) - rejected.Load()
 		submitted += n
+		if overflowRace {
+			n = 1102
+		}
 		// quiescence: wait until everything accepted has run; the watchdog only decides when to look
 		deadline := time.Now().Add(3 * time.Second)
 		for executed.Load() < submitted && time.Now().Before(deadline) {
@@ -306,6 +358,7 @@ func main() {
 	}
 	res.Obs("burst_iterations_submitted_from_the_loop", inLoopBursts)
 	res.Obs("iterations_with_io_batch_around_event_list_size", ioBatches)
+	res.Obs("iterations_with_low_priority_overflow_race", overflowRaces)
 	res.Eval(int64(iters))
 	finish(res, sigs, idleStarts, busyStarts, bursts, selfWakeIters, pts, submitted)
 }
